@@ -41,7 +41,7 @@ NOISE_SKIPPED_ONLY = ['"/*"', "'\"'", "don't /* c */", '"unterminated', "@ $ ` \
 # (cfg, simulate traces per worker or None)
 CFGS = {"quick": [("CondIncl_quick", None), ("CondIncl_deep", None), ("CondIncl_sim", 1500)],
         "thorough": [("CondIncl_quick", None), ("CondIncl_thorough", None), ("CondIncl_deep_thorough", None),
-                     ("CondIncl_sim", 20000)]}
+                     ("CondIncl_sim", 6000)]}
 BATCH = 2500
 
 
